@@ -389,7 +389,7 @@ brk("c08-intersect-except", ["C08"], "src/backend/query_builder.rs",
 brk("c08-orders-rev", ["C08"], "src/backend/query_builder.rs",
     """            select.orders.iter().fold(true, |first, expr| {""", """            select.orders.iter().rev().fold(true, |first, expr| {""", "C08.R4:reorder")
 brk("c08-mysql-nulls-emulation", ["C08"], "src/backend/mysql/query.rs",
-    """                write!(sql, " IS NULL ASC, ").unwrap()""", """                write!(sql, " IS NULL DESC, ").unwrap()""", "C08.R5:kw:mysql:NullOrdering")
+    """                NullOrdering::Last => write!(sql, " IS NULL ASC, ").unwrap(),""", """                NullOrdering::Last => write!(sql, " IS NULL DESC, ").unwrap(),""", "C08.R5:kw:mysql:NullOrdering")
 brk("c08-missing-close-paren", ["C08"], "src/backend/query_builder.rs",
     """                write!(sql, "(").unwrap();
                 self.prepare_values_list(values, sql);
@@ -624,3 +624,6 @@ brk("c10-row-tuple-unwrapped", ["C10"], "src/backend/query_builder.rs",
                                 _ => self.prepare_tuple(row, sql),
                             }
                             false""", "C10.R4:row-data:prepare_tuple:exprs")
+brk("c11-numbered-arm-unguarded", ["C11", "C01"], "src/backend/query_builder.rs",
+    """                            Some(Token::Unquoted(tok)) if numbered => {""",
+    """                            Some(Token::Unquoted(tok)) if numbered || !numbered => {""", "custom:", note="guard still mentions numbered: must be seen through")
